@@ -4,6 +4,8 @@
   of stream to the receiver, and what was delivered before is a prefix of what was sent.
 -/
 import ConnectModel.Envelope
+import ConnectModel.Proto
+import ConnectModel.Toy
 import ConnectProofs.Lemmas.Envelope
 import ConnectProofs.C01
 
@@ -157,5 +159,246 @@ example : ((envRead 0).run takeExact { flat := [0,0,0,0,3,1,2], tail := .eof }).
 example : ((envRead 0).run takeExact { flat := [0,0,0], tail := .eof }).1.outcome
     = .fail { code := codeInvalidArgument, wrapsEOF := false } := by decide
 example : PlainTail .unexpectedEOF := by intro c h; cases h
+
+/-! ## protocol level: success only with the terminator
+
+  `clientDecode` is defined on *arbitrary* structured responses. The theorems below say that its
+  verdict "success" (`result = none`) implies that the response carried the protocol's terminator. -/
+
+/-- the terminal reported by `recvItems` is an item of the body -/
+theorem recvItems_endStream_mem (cfg : CCfg) (enc : Option Compressor) :
+    ∀ (items : List BodyItem) (e : Option WireErr) (md : Header),
+      (recvItems cfg enc items).2 = .endStream e md → BodyItem.endStream e md ∈ items := by
+  intro items
+  induction items with
+  | nil => intro e md h; simp [recvItems] at h
+  | cons it rest ih =>
+    intro e md h
+    cases it with
+    | frame fl p =>
+      simp only [recvItems] at h
+      split at h
+      · split at h
+        · exact List.mem_cons_of_mem _ (ih e md h)
+        · split at h
+          · cases h
+          · split at h
+            · split at h
+              · cases h
+              · split at h
+                · exact List.mem_cons_of_mem _ (ih e md h)
+                · cases h
+            · exact List.mem_cons_of_mem _ (ih e md h)
+      · cases h
+    | endStream e' m' =>
+      simp only [recvItems] at h
+      split at h
+      · cases h; exact List.mem_cons_self
+      · cases h
+    | webTrailer b => simp only [recvItems] at h; split at h <;> cases h
+    | raw d => simp [recvItems] at h
+    | errorJSON w => simp [recvItems] at h
+    | errorJSONz w => simp [recvItems] at h
+
+theorem recvItems_webTrailer_mem (cfg : CCfg) (enc : Option Compressor) :
+    ∀ (items : List BodyItem) (blk : Header),
+      (recvItems cfg enc items).2 = .webTrailer blk → ∃ b, BodyItem.webTrailer b ∈ items ∧ blk = sanitizeBlock b := by
+  intro items
+  induction items with
+  | nil => intro blk h; simp [recvItems] at h
+  | cons it rest ih =>
+    intro blk h
+    cases it with
+    | frame fl p =>
+      have lift : (∃ b, BodyItem.webTrailer b ∈ rest ∧ blk = sanitizeBlock b) →
+          ∃ b, BodyItem.webTrailer b ∈ BodyItem.frame fl p :: rest ∧ blk = sanitizeBlock b :=
+        fun ⟨b, hb, he⟩ => ⟨b, List.mem_cons_of_mem _ hb, he⟩
+      simp only [recvItems] at h
+      split at h
+      · split at h
+        · exact lift (ih blk h)
+        · split at h
+          · cases h
+          · split at h
+            · split at h
+              · cases h
+              · split at h
+                · exact lift (ih blk h)
+                · cases h
+            · exact lift (ih blk h)
+      · cases h
+    | endStream e' m' => simp only [recvItems] at h; split at h <;> cases h
+    | webTrailer b =>
+      simp only [recvItems] at h
+      split at h
+      · cases h; exact ⟨b, List.mem_cons_self, rfl⟩
+      · cases h
+    | raw d => simp [recvItems] at h
+    | errorJSON w => simp [recvItems] at h
+    | errorJSONz w => simp [recvItems] at h
+
+/-- **connect_stream_success_needs_end_stream**: a Connect streaming client reports success only
+    if the status was 200 and the body contains an end-of-stream envelope without an error. -/
+theorem connect_stream_success_needs_end_stream (cfg : CCfg) (r : Resp)
+    (h : (clientConnectStream cfg r).result = none) :
+    r.status = 200 ∧ ∃ md, BodyItem.endStream none md ∈ r.body := by
+  unfold clientConnectStream at h
+  by_cases hs : r.status ≠ 200
+  · rw [if_pos hs] at h; cases h
+  · rw [if_neg hs] at h
+    refine ⟨by omega, ?_⟩
+    simp only at h
+    split at h
+    · cases h
+    · cases hterm : (recvItems cfg (encodingPool cfg (r.header.get Gen.hdrConnectStreamEncoding)) r.body).2 with
+      | cleanEOF => simp [hterm] at h
+      | fail c => simp [hterm] at h
+      | webTrailer b => simp [hterm] at h
+      | endStream e md =>
+        cases e with
+        | some w => simp [hterm] at h
+        | none => exact ⟨md, recvItems_endStream_mem _ _ _ _ _ hterm⟩
+
+/-- what "the gRPC status says OK" means -/
+theorem grpcVerdict_ok (dec : Bytes → Option WireErr) (t : Header) (h : grpcErrorFromTrailer dec t = .ok) :
+    parseUint32 (t.get Gen.hdrGrpcStatus) = some 0 := by
+  simp only [grpcErrorFromTrailer] at h
+  split at h
+  · cases h
+  · split at h
+    · cases h
+    · rename_i code hc
+      split at h
+      · rename_i h0; rw [hc, h0]
+      · split at h
+        · cases h
+        · split at h
+          · cases h
+          · split at h
+            · cases h
+            · split at h <;> cases h
+
+theorem grpc_success_needs_status (dec : Bytes → Option WireErr) (cfg : CCfg) (r : Resp)
+    (h : (clientGrpc dec cfg r).result = none) :
+    r.status = 200 ∧
+    ((mergeHeaders [] r.header).get Gen.hdrGrpcStatus ≠ [] ∨
+     ∃ T : Header, grpcErrorFromTrailer dec (mergeHeaders [] T) = .ok ∧
+       ((cfg.proto ≠ .grpcWeb ∧ T = r.trailer) ∨ ∃ b, BodyItem.webTrailer b ∈ r.body ∧ T = sanitizeBlock b)) := by
+  simp only [clientGrpc] at h
+  by_cases hs : r.status ≠ 200
+  · rw [if_pos hs] at h; cases h
+  · rw [if_neg hs] at h
+    refine ⟨by omega, ?_⟩
+    by_cases hk : (!encodingKnown cfg (r.header.get Gen.hdrGrpcEncoding)) = true
+    · rw [if_pos hk] at h; cases h
+    · rw [if_neg hk] at h
+      by_cases hto : (mergeHeaders [] r.header).get Gen.hdrGrpcStatus ≠ []
+      · exact Or.inl hto
+      · right
+        cases hv : grpcErrorFromTrailer dec r.header <;> rw [hv] at h <;> simp only at h <;>
+          first
+          | (cases h; done)
+          | (rcases hr : recvItems cfg (encodingPool cfg (r.header.get Gen.hdrGrpcEncoding)) r.body with ⟨msgs, term⟩
+             rw [hr] at h
+             simp only at h
+             rw [if_neg hto] at h
+             revert h
+             cases term with
+             | cleanEOF =>
+               simp only
+               intro h
+               split at h
+               · cases h
+               · cases h
+               · simp at h
+               · rename_i hok
+                 by_cases hw : cfg.proto = .grpcWeb
+                 · simp [hw, mergeHeaders, grpcErrorFromTrailer, Header.get, Header.vals] at hok
+                 · simp only [hw, if_false] at hok
+                   exact ⟨r.trailer, hok, Or.inl ⟨hw, rfl⟩⟩
+             | webTrailer b =>
+               simp only
+               intro h
+               split at h
+               · cases h
+               · cases h
+               · simp at h
+               · rename_i hok
+                 obtain ⟨b0, hb0, hbe⟩ := recvItems_webTrailer_mem cfg _ r.body b (by rw [hr])
+                 exact ⟨b, hok, Or.inr ⟨b0, hb0, hbe⟩⟩
+             | fail c =>
+               simp only
+               intro h
+               split at h <;> simp at h
+             | endStream eo m =>
+               simp only
+               intro h
+               split at h <;> simp at h)
+
+/-- the protocol's terminator in a structured response -/
+def Terminated (dec : Bytes → Option WireErr) (cfg : CCfg) (r : Resp) : Prop :=
+  r.status = 200 ∧
+  match cfg.proto with
+  | .connect => cfg.kind = .unary ∨ ∃ md, BodyItem.endStream none md ∈ r.body
+  | _ =>
+    (mergeHeaders [] r.header).get Gen.hdrGrpcStatus ≠ [] ∨
+    ∃ T : Header, grpcErrorFromTrailer dec (mergeHeaders [] T) = .ok ∧
+      ((cfg.proto ≠ .grpcWeb ∧ T = r.trailer) ∨ ∃ b, BodyItem.webTrailer b ∈ r.body ∧ T = sanitizeBlock b)
+
+theorem connect_unary_success_needs_200 (cfg : CCfg) (st : Bytes) (r : Resp)
+    (h : (clientConnectUnary cfg st r).result = none) : r.status = 200 := by
+  simp only [clientConnectUnary] at h
+  by_cases hk : (!encodingKnown cfg (r.header.get Gen.hdrConnectUnaryEncoding)) = true
+  · rw [if_pos hk] at h; cases h
+  · rw [if_neg hk] at h
+    by_cases hs : r.status ≠ 200
+    · rw [if_pos hs] at h
+      split at h
+      · cases h
+      · split at h <;> cases h
+      · cases h
+    · omega
+
+theorem unaryWrap_success (o : ClientObs) (h : (unaryWrap o).result = none) : o.result = none := by
+  unfold unaryWrap at h
+  split at h <;> first | assumption | cases h | rfl
+
+/-- **success_needs_terminator**: for every protocol, RPC kind, client configuration and every
+    structured response whatsoever, the client's verdict "success" implies that the response had
+    status 200 and carried the protocol's terminator: a Connect end-of-stream envelope without an
+    error, `grpc-status: 0` in the HTTP trailers (or headers, the trailers-only form), or a
+    gRPC-Web trailer frame saying so. (Unary Connect has no in-band terminator; completeness of
+    the HTTP body is the transport's Content-Length / chunked framing, outside the model.) -/
+theorem success_needs_terminator (dec : Bytes → Option WireErr) (cfg : CCfg) (st : Bytes) (r : Resp)
+    (h : (clientDecode dec cfg st r).result = none) : Terminated dec cfg r := by
+  have hS : (match cfg.proto with
+      | .connect => if cfg.kind = StreamKind.unary then clientConnectUnary cfg st r else clientConnectStream cfg r
+      | _ => clientGrpc dec cfg r).result = none → Terminated dec cfg r := by
+    intro he
+    unfold Terminated
+    cases hp : cfg.proto with
+    | connect =>
+      rw [hp] at he
+      simp only at he
+      split at he
+      · rename_i hk; exact ⟨connect_unary_success_needs_200 cfg st r he, Or.inl hk⟩
+      · have := connect_stream_success_needs_end_stream cfg r he
+        exact ⟨this.1, Or.inr this.2⟩
+    | grpc => rw [hp] at he; have := grpc_success_needs_status dec cfg r he; rw [hp] at this; exact this
+    | grpcWeb => rw [hp] at he; have := grpc_success_needs_status dec cfg r he; rw [hp] at this; exact this
+  unfold clientDecode at h
+  simp only at h
+  split at h
+  · exact hS h
+  · exact hS (unaryWrap_success _ h)
+  · exact hS (unaryWrap_success _ h)
+  · exact hS h
+
+/-- non-vacuity: a terminated response that is accepted, and the same response without its
+    terminator that is not -/
+example : (clientConnectStream { proto := .connect, kind := .server, accepts := [], pool := rleCompressor, max := 0 }
+    { status := 200, header := [], body := [.frame 0 [1], .endStream none []], trailer := [] }).result = none := by decide
+example : (clientConnectStream { proto := .connect, kind := .server, accepts := [], pool := rleCompressor, max := 0 }
+    { status := 200, header := [], body := [.frame 0 [1]], trailer := [] }).result ≠ none := by decide
 
 end ConnectModel.C04
